@@ -45,7 +45,7 @@ def write_cases(name, cases):
     return p
 
 
-def reproduce_and_report(res, cases, origin):
+def reproduce_and_report(res, origin):
     """every distinct signature is re-executed once from scratch (fresh process, the concrete real-domain case
     only) before it is reported"""
     seen = set()
@@ -60,7 +60,7 @@ def reproduce_and_report(res, cases, origin):
         os.remove(f2)
         if sig not in [x['signature'] for x in again['violations']]:
             c.inconclusive('violation %s not reproduced on re-execution: %s' % (sig, v['detail']))
-        c.report(sig, v['detail'], {'raw': raw, 'origin': origin, 'harness': 'c12'})
+        c.report(sig, v['detail'], {'raw': raw, 'expect': sig, 'origin': origin, 'harness': 'c12'})
 
 
 if c.replay:
@@ -71,7 +71,7 @@ if c.replay:
     if res['inconclusive']:
         c.inconclusive('; '.join(res['inconclusive']))
     for v in res['violations']:
-        c.report(v['signature'], v['detail'], {'raw': obj['raw'], 'origin': 'replay', 'harness': 'c12'})
+        c.report(v['signature'], v['detail'], {'raw': obj['raw'], 'expect': v['signature'], 'origin': 'replay', 'harness': 'c12'})
     c.cov.update(states=1, transitions=0, traces_validated_against_impl=0, evaluations=res['steps'], samples=[obj['raw']])
     c.finish()
 
@@ -193,7 +193,7 @@ if res['behaviours'] != len(all_cases) + len(sim_cases):
     c.inconclusive('harness executed %d of %d cases' % (res['behaviours'], len(all_cases) + len(sim_cases)))
 c.log('replayed %d cases (%d evaluations on the real code, %d distinct series keys, %d random pairs): %d mismatches'
       % (res['behaviours'], res['steps'], res['stats'].get('distinct_series_keys', 0), nrandom, res['stats'].get('violations_total', 0)))
-reproduce_and_report(res, all_cases, 'tlc-cases+random')
+reproduce_and_report(res, 'tlc-cases+random')
 
 # ---- 3. binding self-test: corrupt the real encoder's output inside the harness; it must be reported ----
 # (a small slice of the cases is enough; results stay out of the verdict)
